@@ -9,6 +9,7 @@
 #include "base/array.hpp"
 #include "base/dictionary.hpp"
 #include "base/configtype.hpp"
+#include "base/serializer.hpp"
 #include "config/configitem.hpp"
 #include "icinga/host.hpp"
 #include "icinga/service.hpp"
@@ -369,6 +370,82 @@ VOP(mx_exec)
 		o << " out=" << HexEnc(cr->GetOutput().GetData()) << " pd=" << HexList(pd);
 	}
 	Out(o.str());
+}
+
+// mx_replay svc=0|1 run=0|1 : the command_endpoint path.  Parent: ResolveArguments in COLLECT mode (fresh dictionary,
+// useResolvedMacros = false - the call PluginUtility::ExecuteCommand makes when Checkable::ExecuteCheck hands
+// CheckCommand::Execute a dictionary).  Agent: a bare virtual Host as ClusterEvents::ExecuteCheckFromQueue builds it,
+// ResolveArguments with useResolvedMacros = true, and (run=1) the real Checkable::ExecuteRemoteCheck(macros) ->
+// CheckCommand::Execute(.., macros, true) -> PluginCheckTask -> PluginUtility::ExecuteCommand -> Process -> recplug.
+VOP(mx_replay)
+{
+	bool withSvc = a.num("svc", 0) != 0;
+	Build(withSvc);
+	Dictionary::Ptr macros = new Dictionary();
+	try {
+		MacroProcessor::ResolveArguments(l_S.command->GetCommandLine(), l_S.command->GetArguments(), Resolvers(), nullptr, macros, false);
+	} catch (const std::exception&) {
+		Out("rcoll err");
+		return;
+	}
+	Out("rcoll ok");
+
+	Host::Ptr vhost = new Host();
+	Dictionary::Ptr attrs = new Dictionary();
+	attrs->Set("__name", l_S.host->GetName());
+	attrs->Set("type", "Host");
+	attrs->Set("check_command", l_S.command->GetName());
+	Deserialize(vhost, attrs, false, FAConfig);
+	if (withSvc) vhost->SetExtension("agent_service_name", "mxs");
+	vhost->SetExtension("agent_check", true);
+
+	{
+		MacroProcessor::ResolverList rl;
+		rl.emplace_back("host", vhost);
+		rl.emplace_back("command", l_S.command);
+		try {
+			Value res = MacroProcessor::ResolveArguments(l_S.command->GetCommandLine(), l_S.command->GetArguments(), rl, nullptr, macros, true);
+			std::vector<String> pa = Process::PrepareCommand(res);
+			if (res.IsObjectType<Array>()) {
+				std::string line = "rres arr";
+				for (auto& s : pa) line += " " + HexEnc(s.GetData());
+				Out(line);
+			} else
+				Out("rres sh " + HexEnc(pa.at(2).GetData()));
+		} catch (const std::exception&) {
+			Out("rres err");
+		}
+	}
+
+	if (!a.num("run", 0)) return;
+	InitOnce();
+	unlink(l_S.argvFile.c_str());
+	static long l_RExit;
+	{
+		std::unique_lock<std::mutex> lock(l_Mx);
+		l_Done = false; l_RExit = -1;
+	}
+	Checkable::ExecuteCommandProcessFinishedHandler = [](const Value&, const ProcessResult& pr) {
+		Checkable::CurrentConcurrentChecks.fetch_sub(1);
+		Checkable::DecreasePendingChecks();
+		std::unique_lock<std::mutex> lock(l_Mx);
+		l_RExit = pr.ExitStatus; l_Done = true; l_Cv.notify_all();
+	};
+	bool threw = false;
+	try { vhost->ExecuteRemoteCheck(macros); } catch (const std::exception&) { threw = true; }
+	Checkable::ExecuteCommandProcessFinishedHandler = nullptr;
+	if (threw) { Out("rexec exception"); return; }
+	bool ok;
+	long ex;
+	{
+		std::unique_lock<std::mutex> lock(l_Mx);
+		ok = l_Cv.wait_for(lock, std::chrono::seconds(60), [] { return l_Done; });
+		ex = l_RExit;
+	}
+	if (!ok) { Out("rexec HANG-no-process-result"); return; }
+	std::vector<String> argv;
+	bool have = ReadArgvFile(l_S.argvFile, argv);
+	Out("rexec argv=" + (have ? HexList(argv) : std::string("none")) + " exit=" + std::to_string(ex));
 }
 
 // pure functions
